@@ -18,6 +18,7 @@ import (
 	"github.com/Comcast/rulio/core"
 	"pgregory.net/rapid"
 
+	"verif/harness/gen"
 	"verif/harness/vlib"
 )
 
@@ -38,7 +39,7 @@ func genC10(t *rapid.T) c10Case {
 	ids := []string{"r1", "r2", "r3"}
 	for i := 0; i < n; i++ {
 		l := fmt.Sprintf("op%d", i)
-		kinds := []string{"add", "add", "add", "rem", "disable", "disable", "enable", "reload", "event", "event", "event", "event", "locOff", "locOn", "fact", "sched", "evaluate", "addEmptySched"}
+		kinds := []string{"add", "add", "add", "rem", "disable", "disable", "enable", "reload", "event", "event", "event", "event", "locOff", "locOn", "fact", "sched", "evaluate", "addEmptySched", "trigger", "trigger", "schedOff"}
 		if c.Parent {
 			kinds = append(kinds, "padd", "prem", "pdisable", "penable", "plocOff", "plocOn")
 		}
@@ -59,6 +60,16 @@ func genC10(t *rapid.T) c10Case {
 			// (N = -1 marks it)
 			c.Ops = append(c.Ops, op{K: "addRule", Loc: "L", Id: id, N: -1})
 			c.Ops = append(c.Ops, op{K: "event", Loc: "L", N: int64(rapid.IntRange(0, len(c10Events)-1).Draw(t, l+".fev"))})
+		case "trigger":
+			// an event that names the rule to run (what a cron service
+			// delivers for a scheduled rule); B: with a property that some
+			// rules' conditions look for
+			c.Ops = append(c.Ops, op{K: "trigger", Loc: "L", Id: id, B: rapid.Bool().Draw(t, l+".witha")})
+		case "schedOff":
+			// a scheduled rule, disabled, and then its trigger
+			c.Ops = append(c.Ops, op{K: "addRule", Loc: "L", Id: id, N: -1})
+			c.Ops = append(c.Ops, op{K: "enable", Loc: "L", Id: id, B: false})
+			c.Ops = append(c.Ops, op{K: "trigger", Loc: "L", Id: id})
 		case "fact":
 			// a plain fact written under a rule id replaces the rule
 			c.Ops = append(c.Ops, op{K: "addFact", Loc: "L", Id: id})
@@ -274,6 +285,61 @@ func runC10(c c10Case) *vlib.Outcome {
 					o.Label("evaluate-in-disabled-location")
 				} else if cond != nil || len(vals) != 1 || vals[0] != tag {
 					o.Fail("EMBEDDED_RULE_DID_NOT_RUN", "%s: an event with an embedded rule should run exactly that rule (value %q); got values %v, condition %v", when, tag, vals, cond)
+				}
+			case "trigger":
+				ev := M{"trigger!": x.Id}
+				if x.B {
+					ev["a"] = "x"
+				}
+				work, _ := w.locs["L"].ProcessEvent(newCtx(), core.Map(gen.CopyMap(ev)))
+				var vals []string
+				if work != nil {
+					for _, v := range work.Values {
+						vals = append(vals, fmt.Sprint(v))
+					}
+				}
+				if !locOn {
+					if len(vals) > 0 {
+						o.Fail("DISABLED_LOCATION_FIRED", "%s: a rule named by an event fired in a disabled location: values %v", when, vals)
+					}
+					break
+				}
+				it, d := ml.Items[x.Id], ml.ruleDisabled(x.Id)
+				if ml.Unspec[x.Id] || d == 2 {
+					break
+				}
+				var want []string
+				if it != nil && it.IsRule && d == 0 {
+					n := 1 // a rule without a condition on the event runs once
+					if it.When != nil {
+						e := refBoth(it.When, ev)
+						if len(e.Strict) != len(e.Lenient) {
+							break
+						}
+						n = len(e.Strict)
+					}
+					for j := 0; j < n; j++ {
+						want = append(want, it.Tag)
+					}
+				}
+				if it != nil && it.IsRule && d == 1 {
+					o.Label("trigger-of-disabled-rule")
+					if it.When == nil {
+						sawDisableEvent = true
+					}
+				}
+				if it != nil && it.IsRule && it.Tag == "" {
+					break
+				}
+				if len(want) > 0 && fmt.Sprint(want) == fmt.Sprint(vals) && c15OneShot(it.Schedule) {
+					// a one-shot rule is deleted after it ran
+					ml.rem(x.Id)
+					ml.rem(propId(x.Id, "disabled"))
+					o.Label("one-shot-ran")
+					break
+				}
+				if fmt.Sprint(want) != fmt.Sprint(vals) {
+					o.Fail("WRONG_TRIGGER_VALUES", "%s: an event that names rule %q (in the model: %s, disabled=%v) produced the values %v; expected %v", when, x.Id, vlib.JSON(it), d == 1, vals, want)
 				}
 			case "event":
 				if x.N < 0 || int(x.N) >= len(c10Events) {
